@@ -237,7 +237,7 @@ type ObjectLiteralField struct {
 func (self ObjectLiteralField) String() string {
 	var key string
 	if !util.IsIdent(self.Key.ident) {
-		key = fmt.Sprintf("\"%s\"", self.Key.ident)
+		key = fmt.Sprintf("\"%s\"", escapeString(self.Key.ident))
 	} else {
 		key = self.Key.ident
 	}
